@@ -439,6 +439,15 @@ def selftest():
     n("abi: array built in a helper variable first", "phonopy/phonon/dos.py", '        np.array(grid_address, dtype="int64", order="C"),\n', '        _ga,\n', edits=[
         dict(file="phonopy/phonon/dos.py", old='    phonoc.tetrahedron_method_dos(\n', new='    _ga = np.array(grid_address, dtype="int64", order="C")\n    phonoc.tetrahedron_method_dos(\n'),
         dict(file="phonopy/phonon/dos.py", old='        np.array(grid_address, dtype="int64", order="C"),\n', new='        _ga,\n')])
+    # R13d
+    b("bounds: q_K[3] filled with i <= 3", "c/dynmat.c", "        for (i = 0; i < 3; i++) {\n            q_K[i] = G_list[g][i] + q_cart[i];", "        for (i = 0; i <= 3; i++) {\n            q_K[i] = G_list[g][i] + q_cart[i];", "R13d.fixed", "q_K")
+    b("bounds: malloc of tp too small", "c/phonopy.c", "tp = (double *)malloc(sizeof(double) * num_qpoints * num_temp * 3);", "tp = (double *)malloc(sizeof(double) * num_qpoints * num_temp * 2);", "R13d.malloc", "tp[")
+    b("bounds: free(tp) dropped", "c/phonopy.c", "    free(tp);\n    tp = NULL;", "    tp = NULL;", "R13d.malloc", "tp = malloc")
+    b("bounds: early return leaks KK", "c/dynmat.c", "    L2 = 4 * lambda * lambda;\n", "    L2 = 4 * lambda * lambda;\n    if (num_G == 0) {\n        return;\n    }\n", "R13d.malloc", "KK = malloc")
+    b("bounds: Python allocates props too small", "phonopy/phonon/thermal_properties.py", 'props = np.zeros((len(self._temperatures), 3), dtype="double", order="C")', 'props = np.zeros((len(self._temperatures), 2), dtype="double", order="C")', "R13d.extent", "py_thermal_props")
+    b("bounds: kernel sums past the output", "c/phonopy.c", "        for (j = 0; j < num_temp * 3; j++) {\n            thermal_props[j] += tp[i * num_temp * 3 + j];", "        for (j = 0; j < num_temp * 4; j++) {\n            thermal_props[j] += tp[i * num_temp * 3 + j];", "R13d.extent", "py_thermal_props")
+    b("bounds: multiplicity allocated without the pair axis", "phonopy/structure/cells.py", "            (len(supercell_fracs), len(primitive_fracs), 2), dtype=\"int64\", order=\"C\"", "            (len(supercell_fracs), len(primitive_fracs)), dtype=\"int64\", order=\"C\"", "R13d.extent", "py_multiplicity")
+    n("bounds: hoist subscript into a local", "c/phonopy.c", "                tp[i * num_temp * 3 + j * 3] +=\n", "                tp[i * num_temp * 3 + j * 3 + 0] +=\n")
     # R13f
     b("sparse predicate uses <= ", "c/phonopy.c", "if (length[k] - minimum < symprec) {", "if (length[k] - minimum <= symprec) {", "R13f", "selection predicate", nth=0)
     return V
